@@ -40,7 +40,8 @@ impl MapV for syn::Expr {
 impl MapV for BTreeMap<String, bool> {
     const NAME: &'static str = "BTreeMap<String,bool>";
     fn good(j: usize) -> String { if j % 2 == 0 { "(a = true, b)".into() } else { "()".into() } }
-    fn bad(j: usize) -> String { if j % 2 == 0 { "(a = 3, b)".into() } else { " = 3".into() } }
+    // one problem inside, the wrong form, several problems inside (a bundle that has to stay under the outer key)
+    fn bad(j: usize) -> String { match j % 3 { 0 => "(a = 3, c = 4, b, a)".into(), 1 => " = 3".into(), _ => "(a = 3, b)".into() } }
     fn show(&self) -> String { format!("{:?}", self) }
 }
 
@@ -170,7 +171,7 @@ fn check(case: &Value, obs: &MapObs, attrs: &[syn::Attribute], elem: &dyn Fn(usi
     let extra: Vec<String> = (0..obs.leaves.len()).filter(|j| !used[*j]).filter(|j| {
         let l = &obs.leaves[*j];
         !ms.iter().any(|m| m["cls"] == "other" && !m["loc"].as_array().unwrap().is_empty()
-            && l.path.len() > 1 && l.path[0] == m["loc"][0].as_str().unwrap())
+            && !l.path.is_empty() && l.path[0] == m["loc"][0].as_str().unwrap())
     }).map(|j| obs.leaves[j].text.clone()).collect();
     if !missing.is_empty() || !extra.is_empty() {
         prop.push(format!("{}: not reported: [{}]; unexplained: [{}]", tag, missing.join(", "), extra.join(", ")));
